@@ -27,7 +27,15 @@ if [ $ok = 1 ] && [ -n "$demo" ] && [[ "$demo" == *.nl ]]; then
   without=$(timeout 60 target/debug/nederlang "$demo" 2>&1 | head -40)
   echo "--- demo WITH change:"; echo "$with" | head -12
   echo "--- demo WITHOUT change:"; echo "$without" | head -12
-  if [ "$with" = "$without" ]; then echo "DEMO OUTPUT IDENTICAL (needs valgrind / other evidence: see NOTES.md)"; fi
+  if [ "$with" = "$without" ]; then
+    echo "DEMO OUTPUT IDENTICAL: memory-only change, asking valgrind (memcheck, leak-check=full)"
+    vg="valgrind -q --error-exitcode=99 --leak-check=full --errors-for-leak-kinds=definite,indirect"
+    $vg target/debug/nederlang "$demo" >/dev/null 2>/tmp/vg-without.txt; c0=$?
+    git apply "$src/SEED/patch.diff"; cargo build --offline -q 2>/dev/null
+    $vg target/debug/nederlang "$demo" >/dev/null 2>/tmp/vg-with.txt; c1=$?
+    echo "valgrind exit WITHOUT change: $c0, WITH change: $c1 ($(grep -m1 -E "Invalid|uninitialised|lost" /tmp/vg-with.txt | cut -c1-100))"
+    if [ "$c0" = "0" ] && [ "$c1" = "99" ]; then :; else echo "VALGRIND DOES NOT SEPARATE THEM"; ok=0; fi
+  fi
 fi
 if [ $ok = 1 ] && [ -n "$demo" ] && [[ "$demo" == *.rs ]]; then
   cp "$demo" tests/seed_demo.rs
@@ -44,6 +52,15 @@ if [ $ok = 1 ] && [ -n "$demo" ] && [[ "$demo" == *.txt ]]; then
   without=$(timeout 60 target/debug/nederlang < "$demo" 2>&1 | head -40)
   echo "--- session WITH change:"; echo "$with" | head -14
   echo "--- session WITHOUT change:"; echo "$without" | head -14
+  if [ "$with" = "$without" ]; then
+    echo "SESSION OUTPUT IDENTICAL: memory-only change, asking valgrind"
+    vg="valgrind -q --error-exitcode=99 --leak-check=full --errors-for-leak-kinds=definite,indirect"
+    $vg target/debug/nederlang < "$demo" >/dev/null 2>/tmp/vg-without.txt; c0=$?
+    git apply "$src/SEED/patch.diff"; cargo build --offline -q 2>/dev/null
+    $vg target/debug/nederlang < "$demo" >/dev/null 2>/tmp/vg-with.txt; c1=$?
+    echo "valgrind exit WITHOUT change: $c0, WITH change: $c1 ($(grep -m1 -E "Invalid|uninitialised|lost" /tmp/vg-with.txt | cut -c1-100))"
+    if [ "$c0" = "0" ] && [ "$c1" = "99" ]; then :; else echo "VALGRIND DOES NOT SEPARATE THEM"; ok=0; fi
+  fi
 fi
 mkdir -p /verif/seeded/$id
 cp "$src"/SEED/patch.diff /verif/seeded/$id/ 2>/dev/null
